@@ -192,6 +192,7 @@ type Env struct {
 	lastForeign string
 	heldVer  *integrity.Verifier      // a Verifier kept across operations (vhold / vheld)
 	heldRes  []integrity.VerifyResult // what its callback was handed during the latest Verify
+	staleHandle bool        // a store failure happened on this handle: its caches may be those of the failing phase until it is replaced by a fresh one
 	signing  bool           // a sign operation is in progress (slowSmallReads)
 	faultCtl bool           // interpose the controllable recorder (as crashCtl) without the C09 crash oracle
 	desync   bool           // an injected store failure left handle and file apart; cleared by the next successful modification
@@ -411,6 +412,7 @@ func (e *Env) Apply(op *Op) []string {
 			m, j := faultPoint(done, kind)
 			op.Fault = fmt.Sprintf("%d:%d", m, j)
 			e.desync = true
+			e.staleHandle = true
 			if !opFailed(obs) {
 				e.pending = append(e.pending, &Violation{Prop: "C09", Key: "C09:fault", What: fmt.Sprintf("%s: the store failed a %s call and the operation reported %q", op.Kind, kind, strings.Join(obs, " | "))})
 			}
@@ -433,7 +435,14 @@ func (e *Env) Apply(op *Op) []string {
 		}
 		return obs
 	}
-	if !(e.crashCtl || crashMode) || e.f == nil || e.ctl == nil || !isCrashOp(op.Kind) {
+	if !(e.crashCtl || crashMode) || e.f == nil || e.ctl == nil || !isCrashOp(op.Kind) || e.staleHandle {
+		// (after a failed store call the handle keeps what the failing phase left — the group-minimum
+		// cache of before a delete, say — also once a later success has brought the file up to date;
+		// the crash oracle re-runs operations on freshly loaded copies, which is not this handle: the
+		// C09 theorems assume a well-formed handle (WF.coh), and the oracle waits for a fresh one)
+		if e.staleHandle {
+			op.IO = false
+		}
 		return e.applyCore(op)
 	}
 	// C09: record the operation's mutating calls, emit them, and examine every interruption
@@ -456,6 +465,7 @@ func (e *Env) applyCore(op *Op) []string {
 	switch op.Kind {
 	case "create", "load", "reload", "patch", "ftrunc", "fpatch":
 		e.desync = false // a fresh handle: it says what the file says
+		e.staleHandle = false
 	}
 	switch op.Kind {
 	case "cli":
